@@ -223,19 +223,8 @@ Proof.
   apply sortu_nonempty. apply H. exact Hc0.
 Qed.
 
-Lemma extract_truthy : forall t d, extract t = Some d -> d <> [].
-Proof.
-  intros t d H.
-  destruct t; cbn [extract] in H; try discriminate.
-  - apply mk_Some in H. tauto.
-  - destruct (truthy (extract t1) && truthy (extract t2)); [|discriminate].
-    destruct (extract t1), (extract t2); try discriminate. apply mk_Some in H. tauto.
-  - destruct (truthy (extract t1) && truthy (extract t2)); [|discriminate].
-    destruct (extract t1), (extract t2); try discriminate. apply mk_Some in H. tauto.
-Qed.
-
 (* ================================================================== *)
-(* 4. extract computes a DNF of the tree, for EVERY valuation of the atoms *)
+(* 4-5. Generic facts about extract_gen, for an arbitrary leaf policy [ok] *)
 (* ================================================================== *)
 Fixpoint teval (p : atom -> bool) (t : ptree) : bool :=
   match t with
@@ -246,26 +235,6 @@ Fixpoint teval (p : atom -> bool) (t : ptree) : bool :=
   | POther => false
   end.
 
-Theorem extract_eval : forall t d, extract t = Some d -> forall p, K p d = teval p t.
-Proof.
-  induction t as [a|a|l IHl r IHr|l IHl r IHr|]; intros d H p; cbn [extract] in H; try discriminate.
-  - apply mk_Some in H. destruct H as [_ [-> _]]. rewrite K_canon. simpl.
-    rewrite andb_true_r, orb_false_r. reflexivity.
-  - destruct (truthy (extract l) && truthy (extract r)); [|discriminate].
-    destruct (extract l) as [dl|], (extract r) as [dr|]; try discriminate.
-    apply mk_Some in H. destruct H as [_ [-> _]].
-    rewrite K_canon, K_normalize_and, forallb_set2. simpl.
-    rewrite (IHl dl eq_refl p), (IHr dr eq_refl p). reflexivity.
-  - destruct (truthy (extract l) && truthy (extract r)); [|discriminate].
-    destruct (extract l) as [dl|], (extract r) as [dr|]; try discriminate.
-    apply mk_Some in H. destruct H as [_ [-> _]].
-    rewrite K_canon, K_normalize_or, existsb_set2. simpl.
-    rewrite (IHl dl eq_refl p), (IHr dr eq_refl p). reflexivity.
-Qed.
-
-(* ================================================================== *)
-(* 5. Which trees are pushed down                                      *)
-(* ================================================================== *)
 Fixpoint cmp_only (t : ptree) : bool :=
   match t with
   | PCmp _ => true
@@ -273,76 +242,179 @@ Fixpoint cmp_only (t : ptree) : bool :=
   | PCmpFlip _ | POther => false
   end.
 
-Theorem extract_total_on_cmp_trees : forall t, cmp_only t = true -> exists d, extract t = Some d.
+(* every comparison atom of the tree satisfies q *)
+Fixpoint tforall (q : atom -> bool) (t : ptree) : bool :=
+  match t with
+  | PCmp a => q a
+  | PCmpFlip a => q (flip_atom a)
+  | PAndT l r | POrT l r => tforall q l && tforall q r
+  | POther => true
+  end.
+
+Ltac split_node H ok l r :=
+  destruct (truthy (extract_gen ok l) && truthy (extract_gen ok r)); [|discriminate];
+  destruct (extract_gen ok l) as [?dl|], (extract_gen ok r) as [?dr|]; try discriminate;
+  apply mk_Some in H.
+
+Section Gen.
+  Variable ok : atom -> bool.
+
+  Lemma extract_gen_truthy : forall t d, extract_gen ok t = Some d -> d <> [].
+  Proof.
+    intros t d H.
+    destruct t; cbn [extract_gen] in H; try discriminate.
+    - destruct (ok a); [|discriminate]. apply mk_Some in H. tauto.
+    - split_node H ok t1 t2. tauto.
+    - split_node H ok t1 t2. tauto.
+  Qed.
+
+  (* extract computes a DNF of the tree, for EVERY valuation of the atoms *)
+  Theorem extract_gen_eval : forall t d, extract_gen ok t = Some d -> forall p, K p d = teval p t.
+  Proof.
+    induction t as [a|a|l IHl r IHr|l IHl r IHr|]; intros d H p; cbn [extract_gen] in H; try discriminate.
+    - destruct (ok a); [|discriminate].
+      apply mk_Some in H. destruct H as [_ [-> _]]. rewrite K_canon. simpl.
+      rewrite andb_true_r, orb_false_r. reflexivity.
+    - split_node H ok l r. destruct H as [_ [-> _]].
+      rewrite K_canon, K_normalize_and, forallb_set2. simpl.
+      rewrite (IHl dl eq_refl p), (IHr dr eq_refl p). reflexivity.
+    - split_node H ok l r. destruct H as [_ [-> _]].
+      rewrite K_canon, K_normalize_or, existsb_set2. simpl.
+      rewrite (IHl dl eq_refl p), (IHr dr eq_refl p). reflexivity.
+  Qed.
+
+  Theorem extract_gen_total : forall t,
+    cmp_only t = true -> tforall ok t = true -> exists d, extract_gen ok t = Some d.
+  Proof.
+    induction t as [a|a|l IHl r IHr|l IHl r IHr|]; simpl; intros H Hq; try discriminate.
+    - rewrite Hq. eexists. reflexivity.
+    - apply andb_true_iff in H. destruct H as [Hl Hr]. apply andb_true_iff in Hq. destruct Hq as [Ql Qr].
+      destruct (IHl Hl Ql) as [dl El], (IHr Hr Qr) as [dr Er]. rewrite El, Er.
+      pose proof (extract_gen_truthy _ _ El) as Nl. pose proof (extract_gen_truthy _ _ Er) as Nr.
+      rewrite (proj2 (truthy_Some dl) Nl), (proj2 (truthy_Some dr) Nr). simpl.
+      eexists. apply mk_nonempty. apply normalize_and_set2_nonempty; assumption.
+    - apply andb_true_iff in H. destruct H as [Hl Hr]. apply andb_true_iff in Hq. destruct Hq as [Ql Qr].
+      destruct (IHl Hl Ql) as [dl El], (IHr Hr Qr) as [dr Er]. rewrite El, Er.
+      pose proof (extract_gen_truthy _ _ El) as Nl. pose proof (extract_gen_truthy _ _ Er) as Nr.
+      rewrite (proj2 (truthy_Some dl) Nl), (proj2 (truthy_Some dr) Nr). simpl.
+      eexists. apply mk_nonempty. apply normalize_or_set2_nonempty; assumption.
+  Qed.
+
+  Theorem extract_gen_only : forall t d,
+    extract_gen ok t = Some d -> cmp_only t = true /\ tforall ok t = true.
+  Proof.
+    induction t as [a|a|l IHl r IHr|l IHl r IHr|]; intros d H; cbn [extract_gen] in H; try discriminate; simpl.
+    - destruct (ok a); [|discriminate]. split; reflexivity.
+    - split_node H ok l r.
+      destruct (IHl dl eq_refl) as [-> ->], (IHr dr eq_refl) as [-> ->]. split; reflexivity.
+    - split_node H ok l r.
+      destruct (IHl dl eq_refl) as [-> ->], (IHr dr eq_refl) as [-> ->]. split; reflexivity.
+  Qed.
+
+  Theorem extract_gen_Some_iff : forall t,
+    (exists d, extract_gen ok t = Some d) <-> cmp_only t && tforall ok t = true.
+  Proof.
+    intros t. rewrite andb_true_iff. split.
+    - intros [d H]. eapply extract_gen_only; eauto.
+    - intros [H1 H2]. apply extract_gen_total; assumption.
+  Qed.
+
+  (* what is emitted is a well-formed, non-trivial pyarrow filter *)
+  Theorem extract_gen_wf : forall t d, extract_gen ok t = Some d -> d <> [] /\ conjs_nonempty d.
+  Proof.
+    intros t d H. split; [eapply extract_gen_truthy; eauto|]. revert d H.
+    assert (Hand : forall l r, conjs_nonempty l -> conjs_nonempty r -> conjs_nonempty (normalize_and (set2 l r))).
+    { intros l r Hl Hr.
+      assert (P : forall a b, conjs_nonempty a -> conjs_nonempty (flat_map (fun c => map (fun c' => c ++ c') b) a)).
+      { intros a b Ha c Hc. apply in_flat_map in Hc. destruct Hc as [c1 [H1 H2]].
+        apply in_map_iff in H2. destruct H2 as [c2 [<- _]].
+        specialize (Ha c1 H1). destruct c1; [congruence|discriminate]. }
+      unfold set2. destruct (dnf_eqb l r); unfold normalize_and; cbn [fold_right]; apply P; assumption. }
+    assert (Hor : forall l r, conjs_nonempty l -> conjs_nonempty r -> conjs_nonempty (normalize_or (set2 l r))).
+    { intros l r Hl Hr c Hc. unfold set2, normalize_or in Hc.
+      destruct (dnf_eqb l r); simpl in Hc; rewrite ?app_nil_r in Hc; [auto|].
+      apply in_app_or in Hc. destruct Hc; auto. }
+    induction t as [a|a|l IHl r IHr|l IHl r IHr|]; intros d H; cbn [extract_gen] in H; try discriminate.
+    - destruct (ok a); [|discriminate].
+      apply mk_Some in H. destruct H as [_ [-> _]]. apply conjs_nonempty_canon.
+      intros c [<-|[]]. discriminate.
+    - split_node H ok l r. destruct H as [_ [-> _]]. apply conjs_nonempty_canon. auto.
+    - split_node H ok l r. destruct H as [_ [-> _]]. apply conjs_nonempty_canon. auto.
+  Qed.
+
+  (* a stricter leaf policy only turns Some into None, never changes the emitted filter *)
+  Lemma extract_gen_with_ne : forall t d, extract_gen ok t = Some d -> extract_with_ne t = Some d.
+  Proof.
+    unfold extract_with_ne.
+    induction t as [a|a|l IHl r IHr|l IHl r IHr|]; intros d H; cbn [extract_gen] in *; try discriminate.
+    - destruct (ok a); [exact H|discriminate].
+    - destruct (extract_gen ok l) as [dl|], (extract_gen ok r) as [dr|];
+        try (destruct (truthy _ && truthy _); discriminate).
+      rewrite (IHl dl eq_refl), (IHr dr eq_refl). exact H.
+    - destruct (extract_gen ok l) as [dl|], (extract_gen ok r) as [dr|];
+        try (destruct (truthy _ && truthy _); discriminate).
+      rewrite (IHl dl eq_refl), (IHr dr eq_refl). exact H.
+  Qed.
+End Gen.
+
+(* ---- instances: the FIXED extract ---- *)
+Definition ne_free (t : ptree) : bool := tforall ne_ok t.              (* no `!=` leaf *)
+Definition pushable (t : ptree) : bool := cmp_only t && ne_free t.     (* only non-!= PCmp / & / | *)
+
+Lemma extract_truthy : forall t d, extract t = Some d -> d <> [].
+Proof. apply extract_gen_truthy. Qed.
+
+Theorem extract_eval : forall t d, extract t = Some d -> forall p, K p d = teval p t.
+Proof. apply extract_gen_eval. Qed.
+
+Theorem extract_total_on_cmp_trees : forall t,
+  cmp_only t = true -> ne_free t = true -> exists d, extract t = Some d.
+Proof. apply extract_gen_total. Qed.
+
+Theorem extract_only_on_cmp_trees : forall t d, extract t = Some d -> cmp_only t = true /\ ne_free t = true.
+Proof. apply extract_gen_only. Qed.
+
+(* exact characterisation: a filter is pushed iff the tree is made of non-!= PCmp / & / | only *)
+Theorem extract_Some_iff : forall t, (exists d, extract t = Some d) <-> pushable t = true.
+Proof. apply extract_gen_Some_iff. Qed.
+
+Corollary extract_None_iff : forall t, extract t = None <-> pushable t = false.
 Proof.
-  induction t as [a|a|l IHl r IHr|l IHl r IHr|]; simpl; intros H; try discriminate.
-  - eexists. reflexivity.
-  - apply andb_true_iff in H. destruct H as [Hl Hr].
-    destruct (IHl Hl) as [dl El], (IHr Hr) as [dr Er]. rewrite El, Er.
-    pose proof (extract_truthy _ _ El) as Nl. pose proof (extract_truthy _ _ Er) as Nr.
-    rewrite (proj2 (truthy_Some dl) Nl), (proj2 (truthy_Some dr) Nr). simpl.
-    eexists. apply mk_nonempty. apply normalize_and_set2_nonempty; assumption.
-  - apply andb_true_iff in H. destruct H as [Hl Hr].
-    destruct (IHl Hl) as [dl El], (IHr Hr) as [dr Er]. rewrite El, Er.
-    pose proof (extract_truthy _ _ El) as Nl. pose proof (extract_truthy _ _ Er) as Nr.
-    rewrite (proj2 (truthy_Some dl) Nl), (proj2 (truthy_Some dr) Nr). simpl.
-    eexists. apply mk_nonempty. apply normalize_or_set2_nonempty; assumption.
+  intros t. pose proof (extract_Some_iff t) as [H1 H2]. split; intros H.
+  - destruct (pushable t) eqn:E; [|reflexivity]. destruct (H2 eq_refl) as [d E']. congruence.
+  - destruct (extract t) as [d|] eqn:E; [|reflexivity]. rewrite H1 in H by eauto. discriminate.
 Qed.
 
-Theorem extract_only_on_cmp_trees : forall t d, extract t = Some d -> cmp_only t = true.
-Proof.
-  induction t as [a|a|l IHl r IHr|l IHl r IHr|]; intros d H; cbn [extract] in H; try discriminate; simpl.
-  - reflexivity.
-  - destruct (truthy (extract l) && truthy (extract r)); [|discriminate].
-    destruct (extract l) as [dl|], (extract r) as [dr|]; try discriminate.
-    rewrite (IHl dl eq_refl), (IHr dr eq_refl). reflexivity.
-  - destruct (truthy (extract l) && truthy (extract r)); [|discriminate].
-    destruct (extract l) as [dl|], (extract r) as [dr|]; try discriminate.
-    rewrite (IHl dl eq_refl), (IHr dr eq_refl). reflexivity.
-Qed.
-
-(* exact characterisation: a filter is pushed iff the tree is made of PCmp / & / | only *)
-Theorem extract_Some_iff : forall t, (exists d, extract t = Some d) <-> cmp_only t = true.
-Proof.
-  intros t. split.
-  - intros [d H]. eapply extract_only_on_cmp_trees; eauto.
-  - apply extract_total_on_cmp_trees.
-Qed.
-
-Corollary extract_None_iff : forall t, extract t = None <-> cmp_only t = false.
-Proof.
-  intros t. split; intros H.
-  - destruct (cmp_only t) eqn:E; [|reflexivity].
-    apply extract_total_on_cmp_trees in E. destruct E as [d E]. congruence.
-  - destruct (extract t) as [d|] eqn:E; [|reflexivity].
-    apply extract_only_on_cmp_trees in E. congruence.
-Qed.
-
-(* what is emitted is a well-formed, non-trivial pyarrow filter *)
 Theorem extract_wf : forall t d, extract t = Some d -> d <> [] /\ conjs_nonempty d.
+Proof. apply extract_gen_wf. Qed.
+
+(* the fix only withdraws filters: whatever is still pushed is what the old code pushed *)
+Theorem extract_refines_with_ne : forall t d, extract t = Some d -> extract_with_ne t = Some d.
+Proof. apply extract_gen_with_ne. Qed.
+
+Theorem extract_with_ne_agrees_when_ne_free : forall t, ne_free t = true -> extract t = extract_with_ne t.
 Proof.
-  intros t d H. split; [eapply extract_truthy; eauto|]. revert d H.
-  assert (Hand : forall l r, conjs_nonempty l -> conjs_nonempty r -> conjs_nonempty (normalize_and (set2 l r))).
-  { intros l r Hl Hr.
-    assert (P : forall a b, conjs_nonempty a -> conjs_nonempty (flat_map (fun c => map (fun c' => c ++ c') b) a)).
-    { intros a b Ha c Hc. apply in_flat_map in Hc. destruct Hc as [c1 [H1 H2]].
-      apply in_map_iff in H2. destruct H2 as [c2 [<- _]].
-      specialize (Ha c1 H1). destruct c1; [congruence|discriminate]. }
-    unfold set2. destruct (dnf_eqb l r); unfold normalize_and; cbn [fold_right]; apply P; assumption. }
-  assert (Hor : forall l r, conjs_nonempty l -> conjs_nonempty r -> conjs_nonempty (normalize_or (set2 l r))).
-  { intros l r Hl Hr c Hc. unfold set2, normalize_or in Hc.
-    destruct (dnf_eqb l r); simpl in Hc; rewrite ?app_nil_r in Hc; [auto|].
-    apply in_app_or in Hc. destruct Hc; auto. }
-  induction t as [a|a|l IHl r IHr|l IHl r IHr|]; intros d H; cbn [extract] in H; try discriminate.
-  - apply mk_Some in H. destruct H as [_ [-> _]]. apply conjs_nonempty_canon.
-    intros c [<-|[]]. discriminate.
-  - destruct (truthy (extract l) && truthy (extract r)); [|discriminate].
-    destruct (extract l) as [dl|], (extract r) as [dr|]; try discriminate.
-    apply mk_Some in H. destruct H as [_ [-> _]]. apply conjs_nonempty_canon. auto.
-  - destruct (truthy (extract l) && truthy (extract r)); [|discriminate].
-    destruct (extract l) as [dl|], (extract r) as [dr|]; try discriminate.
-    apply mk_Some in H. destruct H as [_ [-> _]]. apply conjs_nonempty_canon. auto.
+  intros t H. destruct (extract t) as [d|] eqn:E.
+  - symmetry. apply extract_refines_with_ne. exact E.
+  - destruct (extract_with_ne t) as [d|] eqn:E'; [|reflexivity].
+    apply extract_gen_only in E'. destruct E' as [C _].
+    destruct (extract_total_on_cmp_trees t C H) as [d' E'']. congruence.
 Qed.
+
+(* ---- instances: the OLD extract_with_ne ---- *)
+Lemma tforall_true : forall t, tforall (fun _ => true) t = true.
+Proof. induction t; simpl; auto; rewrite IHt1, IHt2; reflexivity. Qed.
+
+Theorem extract_with_ne_eval : forall t d, extract_with_ne t = Some d -> forall p, K p d = teval p t.
+Proof. apply extract_gen_eval. Qed.
+
+Theorem extract_with_ne_Some_iff : forall t, (exists d, extract_with_ne t = Some d) <-> cmp_only t = true.
+Proof.
+  intros t. unfold extract_with_ne. rewrite extract_gen_Some_iff, tforall_true, andb_true_r. reflexivity.
+Qed.
+
+Theorem extract_with_ne_wf : forall t d, extract_with_ne t = Some d -> d <> [] /\ conjs_nonempty d.
+Proof. apply extract_gen_wf. Qed.
 
 (* ================================================================== *)
 (* 6. Reader semantics as a Boolean DNF                                *)
@@ -379,19 +451,7 @@ Qed.
 (* ================================================================== *)
 (* 7. Soundness                                                         *)
 (* ================================================================== *)
-Definition is_ne (o : cmp) : bool := match o with CNe => true | _ => false end.
 Definition is_some (c : cell) : bool := match c with Some _ => true | None => false end.
-
-(* every comparison atom of the tree satisfies q *)
-Fixpoint tforall (q : atom -> bool) (t : ptree) : bool :=
-  match t with
-  | PCmp a => q a
-  | PCmpFlip a => q (flip_atom a)
-  | PAndT l r | POrT l r => tforall q l && tforall q r
-  | POther => true
-  end.
-
-Definition ne_free (t : ptree) : bool := tforall (fun a => negb (is_ne (a_op a))) t.
 
 (* row-wise condition: every != atom looks at a column that is present in this row *)
 Definition ne_safe (t : ptree) (r : rowv) : bool :=
@@ -407,7 +467,7 @@ Qed.
 
 Lemma ne_free_safe : forall t r, ne_free t = true -> ne_safe t r = true.
 Proof.
-  intros t r. apply tforall_impl. intros a H. rewrite H. reflexivity.
+  intros t r. apply tforall_impl. intros a H. unfold ne_ok in H. rewrite H. reflexivity.
 Qed.
 
 Lemma teval_agree : forall (q p1 p2 : atom -> bool) t,
@@ -442,63 +502,142 @@ Proof.
   destruct (cmp_holds o x v); intros; congruence.
 Qed.
 
-(* Row-wise soundness (strongest form): the pushed filter agrees with pandas on every row in which
+(* ---- generic in the leaf policy ---- *)
+(* Row-wise soundness: the pushed filter agrees with pandas on every row in which
    no `!=` atom of the predicate reads a missing value. *)
-Theorem dnf_sound_row : forall t d r,
-  extract t = Some d -> ne_safe t r = true -> pandas_keep t r = Some (arrow_keep d r).
+Theorem extract_gen_sound_row : forall ok t d r,
+  extract_gen ok t = Some d -> ne_safe t r = true -> pandas_keep t r = Some (arrow_keep d r).
 Proof.
-  intros t d r He Hs.
-  rewrite (pandas_keep_teval t r (extract_only_on_cmp_trees _ _ He)).
-  rewrite arrow_keep_spec, (extract_eval _ _ He). f_equal.
+  intros ok t d r He Hs.
+  rewrite (pandas_keep_teval t r (proj1 (extract_gen_only _ _ _ He))).
+  rewrite arrow_keep_spec, (extract_gen_eval _ _ _ He). f_equal.
   eapply teval_agree; [|exact Hs]. intros a Ha. apply atom_agree. exact Ha.
 Qed.
 
-Theorem dnf_sound : forall t d r,
-  extract t = Some d -> ne_free t = true -> pandas_keep t r = Some (arrow_keep d r).
-Proof. intros t d r He Hn. apply dnf_sound_row; [exact He|]. apply ne_free_safe. exact Hn. Qed.
-
-(* rows without any missing value are always filtered correctly, whatever the operators *)
-Corollary dnf_sound_no_nulls : forall t d r,
-  extract t = Some d -> (forall c, r c <> None) -> pandas_keep t r = Some (arrow_keep d r).
+(* A pushed filter NEVER lets an extra row through, whatever the leaf policy. *)
+Theorem extract_gen_under_approx : forall ok t d r,
+  extract_gen ok t = Some d -> arrow_keep d r = true -> pandas_keep t r = Some true.
 Proof.
-  intros t d r He Hr. apply dnf_sound_row; [exact He|].
-  unfold ne_safe. apply tforall_impl with (q1 := fun _ => true).
-  - intros a _. specialize (Hr (a_col a)). destruct (r (a_col a)); [|congruence].
-    simpl. apply orb_true_r.
-  - clear. induction t; simpl; auto. rewrite IHt1, IHt2; reflexivity. rewrite IHt1, IHt2; reflexivity.
-Qed.
-
-(* The pushed filter NEVER lets an extra row through (even with !=): the defect can only LOSE rows. *)
-Theorem dnf_under_approx : forall t d r,
-  extract t = Some d -> arrow_keep d r = true -> pandas_keep t r = Some true.
-Proof.
-  intros t d r He Hk.
-  rewrite (pandas_keep_teval t r (extract_only_on_cmp_trees _ _ He)). f_equal.
-  rewrite arrow_keep_spec, (extract_eval _ _ He) in Hk.
+  intros ok t d r He Hk.
+  rewrite (pandas_keep_teval t r (proj1 (extract_gen_only _ _ _ He))). f_equal.
+  rewrite arrow_keep_spec, (extract_gen_eval _ _ _ He) in Hk.
   eapply teval_mono; [|exact Hk]. intros a. apply atom_under.
 Qed.
 
-(* Any row on which reader and pandas disagree is a row lost because a `!=` atom met a missing value. *)
-Corollary dnf_disagree_only_ne_null : forall t d r,
-  extract t = Some d -> pandas_keep t r <> Some (arrow_keep d r) ->
+(* every emitted atom satisfies the leaf policy *)
+Definition atoms_ok (q : atom -> bool) (d : dnf) : Prop := forall c a, In c d -> In a c -> q a = true.
+
+Lemma atoms_ok_canon : forall q d, atoms_ok q d -> atoms_ok q (canon d).
+Proof.
+  intros q d H c a Hc Ha. apply canon_In in Hc. apply in_map_iff in Hc. destruct Hc as [c0 [<- Hc0]].
+  apply (proj1 (canon_conj_In _ _)) in Ha. exact (H c0 a Hc0 Ha).
+Qed.
+
+Lemma atoms_ok_and : forall q l r, atoms_ok q l -> atoms_ok q r -> atoms_ok q (normalize_and (set2 l r)).
+Proof.
+  intros q l r Hl Hr.
+  assert (P : forall x y, atoms_ok q x -> atoms_ok q y ->
+              atoms_ok q (flat_map (fun c => map (fun c' => c ++ c') y) x)).
+  { intros x y Hx Hy c a Hc Ha. apply in_flat_map in Hc. destruct Hc as [c1 [H1 H2]].
+    apply in_map_iff in H2. destruct H2 as [c2 [<- H2]]. apply in_app_or in Ha.
+    destruct Ha; [eapply Hx|eapply Hy]; eauto. }
+  assert (N : atoms_ok q [[]]) by (intros c a [<-|[]] []).
+  unfold set2. destruct (dnf_eqb l r); unfold normalize_and; cbn [fold_right]; auto.
+Qed.
+
+Lemma atoms_ok_or : forall q l r, atoms_ok q l -> atoms_ok q r -> atoms_ok q (normalize_or (set2 l r)).
+Proof.
+  intros q l r Hl Hr c a Hc Ha. unfold set2, normalize_or in Hc.
+  destruct (dnf_eqb l r); simpl in Hc; rewrite ?app_nil_r in Hc; [eapply Hl; eauto|].
+  apply in_app_or in Hc. destruct Hc; [eapply Hl|eapply Hr]; eauto.
+Qed.
+
+Theorem extract_gen_atoms_ok : forall ok t d, extract_gen ok t = Some d -> atoms_ok ok d.
+Proof.
+  intros ok. induction t as [a|a|l IHl r IHr|l IHl r IHr|]; intros d H; cbn [extract_gen] in H; try discriminate.
+  - destruct (ok a) eqn:E; [|discriminate]. apply mk_Some in H. destruct H as [_ [-> _]].
+    apply atoms_ok_canon. intros c x [<-|[]] [<-|[]]. exact E.
+  - split_node H ok l r. destruct H as [_ [-> _]]. apply atoms_ok_canon, atoms_ok_and; auto.
+  - split_node H ok l r. destruct H as [_ [-> _]]. apply atoms_ok_canon, atoms_ok_or; auto.
+Qed.
+
+(* ---- MAIN THEOREM, fixed code: no side condition ---- *)
+Theorem dnf_sound : forall t d r,
+  extract t = Some d -> pandas_keep t r = Some (arrow_keep d r).
+Proof.
+  intros t d r He. eapply extract_gen_sound_row; [exact He|].
+  apply ne_free_safe. apply (extract_only_on_cmp_trees _ _ He).
+Qed.
+
+(* so it neither adds nor loses rows; kept under its old name for the new extract *)
+Corollary dnf_under_approx : forall t d r,
+  extract t = Some d -> arrow_keep d r = true -> pandas_keep t r = Some true.
+Proof. intros t d r He Hk. rewrite (dnf_sound _ _ r He), Hk. reflexivity. Qed.
+
+Corollary dnf_over_approx : forall t d r,
+  extract t = Some d -> pandas_keep t r = Some true -> arrow_keep d r = true.
+Proof. intros t d r He Hk. rewrite (dnf_sound _ _ r He) in Hk. congruence. Qed.
+
+(* a `!=` never reaches the reader: neither as a leaf of a pushed tree nor as an emitted tuple *)
+Theorem extract_no_ne : forall t d, extract t = Some d ->
+  ne_free t = true /\ forall c a, In c d -> In a c -> a_op a <> CNe.
+Proof.
+  intros t d He. split; [apply (extract_only_on_cmp_trees _ _ He)|].
+  intros c a Hc Ha E. pose proof (extract_gen_atoms_ok _ _ _ He c a Hc Ha) as Q.
+  unfold ne_ok in Q. rewrite E in Q. discriminate.
+Qed.
+
+Example ex_ne_not_pushed : extract (PCmp (mkatom 0 CNe 3)) = None.
+Proof. reflexivity. Qed.
+Example ex_ne_poisons :
+  extract (PAndT (POrT (PCmp (mkatom 0 CNe 3)) (PCmp (mkatom 1 CLt 0))) (PCmp (mkatom 1 CGe 1))) = None.
+Proof. reflexivity. Qed.
+
+(* ---- OLD behaviour (extract_with_ne): sound only away from `!=`-on-null, refuted in general ---- *)
+Theorem dnf_with_ne_sound_row : forall t d r,
+  extract_with_ne t = Some d -> ne_safe t r = true -> pandas_keep t r = Some (arrow_keep d r).
+Proof. apply extract_gen_sound_row. Qed.
+
+Theorem dnf_with_ne_sound : forall t d r,
+  extract_with_ne t = Some d -> ne_free t = true -> pandas_keep t r = Some (arrow_keep d r).
+Proof. intros t d r He Hn. eapply dnf_with_ne_sound_row; [exact He|]. apply ne_free_safe. exact Hn. Qed.
+
+(* rows without any missing value were always filtered correctly, whatever the operators *)
+Corollary dnf_with_ne_sound_no_nulls : forall t d r,
+  extract_with_ne t = Some d -> (forall c, r c <> None) -> pandas_keep t r = Some (arrow_keep d r).
+Proof.
+  intros t d r He Hr. apply dnf_with_ne_sound_row; [exact He|].
+  unfold ne_safe. apply tforall_impl with (q1 := fun _ => true); [|apply tforall_true].
+  intros a _. specialize (Hr (a_col a)). destruct (r (a_col a)); [|congruence].
+  simpl. apply orb_true_r.
+Qed.
+
+(* the old defect could only LOSE rows *)
+Theorem dnf_with_ne_under_approx : forall t d r,
+  extract_with_ne t = Some d -> arrow_keep d r = true -> pandas_keep t r = Some true.
+Proof. apply extract_gen_under_approx. Qed.
+
+(* Any row on which the old reader filter and pandas disagree is a row lost because a `!=` atom met a missing value. *)
+Corollary dnf_with_ne_disagree_only_ne_null : forall t d r,
+  extract_with_ne t = Some d -> pandas_keep t r <> Some (arrow_keep d r) ->
   ne_safe t r = false /\ pandas_keep t r = Some true /\ arrow_keep d r = false.
 Proof.
   intros t d r He Hd.
   destruct (ne_safe t r) eqn:Es.
-  - exfalso. apply Hd. apply dnf_sound_row; assumption.
+  - exfalso. apply Hd. apply dnf_with_ne_sound_row; assumption.
   - split; [reflexivity|].
     destruct (arrow_keep d r) eqn:Ek.
-    + exfalso. apply Hd. eapply dnf_under_approx; eauto.
+    + exfalso. apply Hd. eapply dnf_with_ne_under_approx; eauto.
     + split; [|reflexivity].
-      rewrite (pandas_keep_teval t r (extract_only_on_cmp_trees _ _ He)) in *.
+      rewrite (pandas_keep_teval t r (proj1 (extract_gen_only _ _ _ He))) in *.
       destruct (teval (fun a => pandas_atom a r) t); [reflexivity|congruence].
 Qed.
 
-(* The known defect: `a != 3` on a row where a is missing.  pandas keeps the row, pyarrow drops it. *)
+(* The known defect of the OLD code: `a != 3` on a row where a is missing.  pandas keeps the row, pyarrow drops it. *)
 Definition null_row : rowv := fun _ => None.
 
-Theorem dnf_ne_refuted : exists t d r,
-  extract t = Some d /\ pandas_keep t r = Some true /\ arrow_keep d r = false.
+Theorem dnf_with_ne_refuted : exists t d r,
+  extract_with_ne t = Some d /\ pandas_keep t r = Some true /\ arrow_keep d r = false.
 Proof.
   exists (PCmp (mkatom 0 CNe 3)), [[mkatom 0 CNe 3]], null_row.
   repeat split; vm_compute; reflexivity.
@@ -506,9 +645,9 @@ Qed.
 
 (* the same defect through an OR / AND context, with a partly-present row *)
 Definition row_b1 : rowv := fun c => match c with 1%nat => Some 1%Z | _ => None end.
-Example dnf_ne_refuted_ctx :
+Example dnf_with_ne_refuted_ctx :
   let t := PAndT (POrT (PCmp (mkatom 0 CNe 3)) (PCmp (mkatom 1 CLt 0))) (PCmp (mkatom 1 CGe 1)) in
-  exists d, extract t = Some d /\ pandas_keep t row_b1 = Some true /\ arrow_keep d row_b1 = false.
+  exists d, extract_with_ne t = Some d /\ pandas_keep t row_b1 = Some true /\ arrow_keep d row_b1 = false.
 Proof. eexists. repeat split; vm_compute; reflexivity. Qed.
 
 (* ================================================================== *)
@@ -595,10 +734,10 @@ Qed.
 
 (* pushing `t` on top of user filters `o` = user filters AND pandas predicate *)
 Corollary pushdown_with_user_filters_sound : forall t d o r,
-  extract t = Some d -> ne_safe t r = true ->
+  extract t = Some d ->
   Some (arrow_keep_opt (combine o (Some d)) r) = obind2 andb (Some (arrow_keep_opt o r)) (pandas_keep t r).
 Proof.
-  intros t d o r He Hs. rewrite combine_sound, (dnf_sound_row _ _ _ He Hs).
+  intros t d o r He. rewrite combine_sound, (dnf_sound _ _ r He).
   rewrite arrow_keep_opt_Some by (eapply extract_truthy; eauto). reflexivity.
 Qed.
 
@@ -843,16 +982,27 @@ Proof.
 Qed.
 
 (* everything extract / combine return is already canonical *)
-Theorem extract_canonical : forall t d, extract t = Some d -> canon d = d.
+Theorem extract_gen_canonical : forall ok t d, extract_gen ok t = Some d -> canon d = d.
 Proof.
-  intros t d H. destruct t; cbn [extract] in H; try discriminate.
+  intros ok t d H. destruct t; cbn [extract_gen] in H; try discriminate.
+  - destruct (ok a); [|discriminate]. apply mk_Some in H. destruct H as [_ [-> _]]. apply canon_idem.
+  - split_node H ok t1 t2. destruct H as [_ [-> _]]. apply canon_idem.
+  - split_node H ok t1 t2. destruct H as [_ [-> _]]. apply canon_idem.
+Qed.
+
+Theorem extract_canonical : forall t d, extract t = Some d -> canon d = d.
+Proof. apply extract_gen_canonical. Qed.
+
+Theorem combine_canonical : forall o1 o2 d, combine o1 o2 = Some d -> canon d = d.
+Proof.
+  intros o1 o2 d. unfold combine.
+  assert (F : forall o d, of_filters o = Some d -> canon d = d).
+  { intros [[|c0 d0]|] d' H; simpl in H; try discriminate. inversion H. apply canon_idem. }
+  destruct (of_filters o1) as [d1|] eqn:E1; destruct (of_filters o2) as [d2|] eqn:E2; intros H.
   - apply mk_Some in H. destruct H as [_ [-> _]]. apply canon_idem.
-  - destruct (truthy (extract t1) && truthy (extract t2)); [|discriminate].
-    destruct (extract t1), (extract t2); try discriminate.
-    apply mk_Some in H. destruct H as [_ [-> _]]. apply canon_idem.
-  - destruct (truthy (extract t1) && truthy (extract t2)); [|discriminate].
-    destruct (extract t1), (extract t2); try discriminate.
-    apply mk_Some in H. destruct H as [_ [-> _]]. apply canon_idem.
+  - inversion H; subst. eapply F; eauto.
+  - inversion H; subst. eapply F; eauto.
+  - discriminate.
 Qed.
 
 (* set-equal dnfs are indistinguishable to the reader (3-valued) *)
@@ -862,25 +1012,47 @@ Proof.
 Qed.
 
 Print Assumptions dnf_sound.
-Print Assumptions dnf_sound_row.
 Print Assumptions dnf_under_approx.
-Print Assumptions dnf_disagree_only_ne_null.
-Print Assumptions dnf_ne_refuted.
+Print Assumptions dnf_over_approx.
+Print Assumptions extract_no_ne.
+Print Assumptions extract_refines_with_ne.
+Print Assumptions extract_with_ne_agrees_when_ne_free.
+Print Assumptions extract_total_on_cmp_trees.
+Print Assumptions extract_only_on_cmp_trees.
+Print Assumptions extract_Some_iff.
+Print Assumptions extract_None_iff.
+Print Assumptions extract_wf.
+Print Assumptions extract_eval.
+Print Assumptions extract_canonical.
+Print Assumptions pushdown_with_user_filters_sound.
 Print Assumptions combine_sound.
 Print Assumptions combine'_sound.
 Print Assumptions combine_wf.
+Print Assumptions combine_canonical.
 Print Assumptions canon_sound.
 Print Assumptions canon_sound3.
-Print Assumptions extract_total_on_cmp_trees.
-Print Assumptions extract_Some_iff.
-Print Assumptions extract_wf.
-Print Assumptions extract_eval.
-Print Assumptions pushdown_with_user_filters_sound.
-Print Assumptions dead_branch_body_wrong.
-Print Assumptions normalize_and_length.
 Print Assumptions canon_complete.
 Print Assumptions canon_iff.
 Print Assumptions canon_idem.
 Print Assumptions dnf_eqb_iff.
-Print Assumptions extract_canonical.
 Print Assumptions arrow_eval_equiv.
+Print Assumptions normalize_and_length.
+Print Assumptions dead_branch_body_wrong.
+(* generic in the leaf policy *)
+Print Assumptions extract_gen_sound_row.
+Print Assumptions extract_gen_under_approx.
+Print Assumptions extract_gen_eval.
+Print Assumptions extract_gen_Some_iff.
+Print Assumptions extract_gen_wf.
+Print Assumptions extract_gen_atoms_ok.
+Print Assumptions extract_gen_canonical.
+(* old behaviour *)
+Print Assumptions dnf_with_ne_refuted.
+Print Assumptions dnf_with_ne_sound.
+Print Assumptions dnf_with_ne_sound_row.
+Print Assumptions dnf_with_ne_sound_no_nulls.
+Print Assumptions dnf_with_ne_under_approx.
+Print Assumptions dnf_with_ne_disagree_only_ne_null.
+Print Assumptions extract_with_ne_Some_iff.
+Print Assumptions extract_with_ne_wf.
+Print Assumptions extract_with_ne_eval.
